@@ -15,7 +15,8 @@ EXPLANATION = (
     "selected by identity with t1, and the delay/flag reach set_timeout/execute_task unchanged; (R4) every completion path that removes a "
     "pending request clears its timer or is the timer callback guarded by a lookup miss, and cancelling a Wait clears its timer before the "
     "callback runs; (R5) States.ExecutionTimeout is unrecoverable and is mapped back to States.Timeout before the terminal record is written. "
-    "Not decided: instants on a real clock; redelivery delays.")
+    "Not decided: instants on a real clock; redelivery delays."
+    " (R8) every function that removes an entry of pending_requests clears the timer stored in slot 6 of that entry (slot checked against the stores), except the timer's own handler.")
 RULE_TEXT = "obligation = one field / definition / call site; non-trivial = distinct (rule, site)"
 
 
